@@ -292,8 +292,9 @@ def run_impl(line, extra=None):
         acc = dec_acc(t[1]) if extra is None or "acc" not in extra else extra["acc"]
 
         def call():
+            tbl = dec_tbl(t[2]) if extra is None or "tbl" not in extra else extra["tbl"]
             r = SW.encode(dec_bits(t[4]), acc, int(t[3]), is_faster=b(t[5]), vt_length=int(t[6]),
-                          shuffles=dec_tbl(t[2]), need_path=True)
+                          shuffles=tbl, need_path=True)
             if int(t[6]) > 0:
                 s, c, p = r
             else:
@@ -375,7 +376,8 @@ def run_impl(line, extra=None):
 def run_model(lines, timeout=600):
     if not os.path.exists(DRIVER):
         raise RuntimeError("driver not built: " + DRIVER)
-    p = subprocess.run([DRIVER], input="\n".join(lines) + "\n", capture_output=True, text=True, timeout=timeout)
+    p = subprocess.run([DRIVER], input="\n".join(lines) + "\n", capture_output=True, text=True, timeout=timeout,
+                       encoding="utf-8")
     if p.returncode != 0:
         raise RuntimeError("driver failed: " + p.stderr[-2000:])
     out = p.stdout.split("\n")
